@@ -163,8 +163,11 @@ def run(ctx, widen=False):
     cases = [c for c in cases if not sparse(c["pipeline"])]
     ctx.check_many("lazy_prefix", cases, procs=1)
     ctx.bump("catalogue entries", len(names)); ctx.bump("pipelines x n", len(cases))
-    out, pulls, _ = measure(["deltas"], 3)
-    ctx.sample({"pipeline": ["deltas"], "n": 3, "items": canon(out), "pulls": pulls})
+    try:
+        out, pulls, _ = measure(["deltas"], 3)
+        ctx.sample({"pipeline": ["deltas"], "n": 3, "items": canon(out), "pulls": pulls})
+    except (Timeout, RuntimeError) as ex:      # the oracle above has already judged this pipeline
+        ctx.sample({"pipeline": ["deltas"], "n": 3, "error": str(ex)})
     # correspondence with the Lean machines: outputs and pull counts
     lines, exp = [], []
     for name in names:
@@ -172,7 +175,15 @@ def run(ctx, widen=False):
         if not model or model.startswith("filtermod"):
             continue
         for n in NS[:6]:
-            out, pulls, _ = measure([name], n)
+            try:
+                out, pulls, _ = measure([name], n)
+            except (Timeout, RuntimeError) as ex:
+                # an eager stage: no finite prefix arrives (judged by the lazy_prefix oracle); for the correspondence it is a
+                # disagreement with the machine, which delivers the prefix
+                lines.append(f"stream\t{model} {n}")
+                exp.append("[] 0")
+                ctx.disagree("stream-machines", f"stream\t{model} {n}", f"no prefix: {ex}", "(the machine delivers it)")
+                continue
             items = [x if isinstance(x, list) else [x] for x in canon(out)]
             if name.startswith("uninterleave"):
                 pass
